@@ -44,3 +44,78 @@ def neighbours(ctx, sx, sy, d, r_m):
     """the 6 axis neighbours at distance r_m metres (surface offsets in file units)"""
     du = r_m / ctx.unit()
     return [(sx + du, sy, d), (sx - du, sy, d), (sx, sy + du, d), (sx, sy - du, d), (sx, sy, d + r_m), (sx, sy, d - r_m)]
+
+
+# ----------------------------------------------------------------------------------------
+# the margin rule (DESIGN.md section 3.2): a disagreement is excused only if, within r of the
+# point, the tag changes or the compared quantity jumps by at least half the disagreement.
+
+MARGIN_R = 1.0e-3
+
+
+def margin_pass(flavour, name, items, r_m=MARGIN_R):
+    """items: list of dicts {world: path, ctx, pt: (sx,sy,d), prop: (a,b,c), delta: float (largest disagreement in that block)}
+    -> list of (excused: bool, info)"""
+    if not items:
+        return []
+    by_world = {}
+    for i, it in enumerate(items):
+        by_world.setdefault(it['world'], []).append(i)
+    cases = []
+    plans = []
+    for wpath, idxs in by_world.items():
+        c = core.Case('m%d' % len(cases))
+        world(c, 1, wpath, seed=items[idxs[0]].get('seed', 1))
+        plan = []
+        for i in idxs:
+            it = items[i]
+            sx, sy, d = it['pt']
+            props = [PROP_TAG, tuple(it['prop'])]
+            centre = q3(c, 1, it['ctx'], sx, sy, d, props)
+            nb = [q3(c, 1, it['ctx'], a, b, dd, props) for (a, b, dd) in neighbours(it['ctx'], sx, sy, d, r_m)]
+            plan.append((i, centre, nb))
+        cases.append(c)
+        plans.append((c, plan))
+    core.run_cases(flavour, cases, name + '_margin')
+    out = [None] * len(items)
+    for c, plan in plans:
+        for (i, centre, nb) in plan:
+            rs = [c.results[centre]] + [c.results[k] for k in nb]
+            if any(not ok(r) for r in rs):
+                # a throwing neighbour is a discontinuity of its own
+                out[i] = (True, 'neighbour-threw')
+                continue
+            vs = [vals(r) for r in rs]
+            tags = set(v[0] for v in vs)
+            if len(tags) > 1:
+                out[i] = (True, 'tag-changes')
+                continue
+            spread = 0.0
+            for k in range(1, len(vs[0])):
+                col = [v[k] for v in vs]
+                if any(x != x for x in col):
+                    spread = float('inf')
+                    break
+                spread = max(spread, max(col) - min(col))
+            if spread >= 0.5 * items[i]['delta']:
+                out[i] = (True, 'jump-of-%g-within-%gm' % (spread, r_m))
+            else:
+                out[i] = (False, 'smooth: spread %g within %g m, disagreement %g' % (spread, r_m, items[i]['delta']))
+    return out
+
+
+def block_delta(a, b):
+    """largest absolute difference between two blocks (inf if NaN mismatch / length mismatch)"""
+    if len(a) != len(b):
+        return float('inf')
+    m = 0.0
+    for x, y in zip(a, b):
+        if x != x or y != y:
+            if (x != x) != (y != y):
+                return float('inf')
+            continue
+        m = max(m, abs(x - y))
+    return m
+
+
+TOL = {1: 1e-6, 2: 1e-9, 3: 1e-9, 4: 0.0, 5: 1e-9}
